@@ -114,6 +114,8 @@ def program_text(reqs, tail):
 
 
 def make_body(spec, falsify=False):
+    if spec.get("kind") == "reopen":
+        return body_reopen(spec)
     reqs, tail = spec["reqs"], spec["tail"]
     text = program_text(reqs, tail)
 
@@ -292,6 +294,85 @@ def make_body(spec, falsify=False):
     return body
 
 
+REOPEN_PROGRAM = """# NETQASM 1.0
+# APPID {app}
+array 10 @0
+array 20 @1
+set R5 1
+store R5 @1[0]
+set R5 1
+store R5 @1[1]
+set R0 1
+set R1 0
+set R2 1
+set R3 0
+create_epr R0 R1 C0 R2 R3
+wait_all @0[0:10]
+"""
+
+
+def body_reopen(spec):
+    """A local EPR socket id is opened again (by the next application, or by the same one) towards another remote socket of the same
+    node: the purpose id the network stack reports for it changes with the re-opening.  The second request must be sent and matched
+    under the NEW purpose id (anything the executor remembers per (node, socket) must not outlive the socket)."""
+    same_app = spec.get("same_app", False)
+
+    def body(inp):
+        SharedMemoryManager.reset_memories()
+        ex = CoExecutor("ctrl")
+        stack = ex.network_stack
+        opened = {}
+        stack.setup_epr_socket = lambda epr_socket_id, remote_node_id, remote_epr_socket_id, timeout=1.0: opened.__setitem__((remote_node_id, epr_socket_id), remote_epr_socket_id)
+        stack.get_purpose_id = lambda remote_node_id, epr_socket_id: opened[(remote_node_id, epr_socket_id)]
+        site = {"scenario": spec["name"]}
+        obs = []
+
+        def drain(g):
+            if g is not None and hasattr(g, "__next__"):
+                list(g)
+
+        for phase, (app, purpose) in enumerate(((0, 5), (0 if same_app else 1, 6))):
+            if phase == 0 or not same_app:
+                ex.init_new_application(app_id=app, max_qubits=2)
+            drain(ex.setup_epr_socket(epr_socket_id=0, remote_node_id=REMOTE, remote_epr_socket_id=purpose))
+            nreq = len(stack.requests)
+            gen = ex.execute_subroutine(parse_text_subroutine(REOPEN_PROGRAM.format(app=app)))
+            alive = True
+            for _ in range(200):
+                try:
+                    ev = next(gen)
+                except StopIteration:
+                    alive = False
+                    break
+                if ev is not None and ev[0] == "blocked":
+                    break
+            sent = stack.requests[nreq:]
+            obs.append(Ob("request_carries_the_sockets_current_purpose_id", len(sent) == 1 and sent[0].purpose_id == purpose, dict(site, phase=phase),
+                          info={"sent": [getattr(r_, "purpose_id", None) for r_ in sent], "want": purpose}))
+            cid, out = inp.int(f"cid{phase}", 0, 1000), inp.bit(f"out{phase}")
+            ex._handle_epr_response(LinkLayerOKTypeM(type=ReturnType.OK_M, create_id=cid, measurement_outcome=out, measurement_basis=0, directionality_flag=0,
+                                                     sequence_number=phase + 1, purpose_id=purpose, remote_node_id=REMOTE, goodness=0, bell_state=0))
+            for _ in range(200):
+                if not alive:
+                    break
+                ex._handle_pending_epr_responses()
+                try:
+                    ev = next(gen)
+                except StopIteration:
+                    alive = False
+                if ev is not None and ev[0] == "blocked" and ev[1] > 50:
+                    break
+            arr = ex._app_arrays[app]._arrays.get(0) or []
+            obs.append(Ob("response_consumed_and_subroutine_completes", (not alive) and ex._pending_epr_responses == [], dict(site, phase=phase),
+                          info={"finished": not alive, "pending": len(ex._pending_epr_responses)}))
+            if len(arr) == 10 and arr[2] is not None:
+                obs.append(Ob("pair_k_fills_slice_k_of_its_request", z3.And(EQ(arr[1], cid), EQ(arr[2], out)), dict(site, phase=phase)))
+            if not same_app:
+                drain(ex.stop_application(app_id=app))
+        return obs
+    return body
+
+
 def scenarios(tier):
     K = lambda role, sock, n, qids: {"role": role, "sock": sock, "tp": "K", "n": n, "qids": qids}  # noqa
     M = lambda role, sock, n: {"role": role, "sock": sock, "tp": "M", "n": n, "qids": []}  # noqa
@@ -324,10 +405,12 @@ def scenarios(tier):
               "tail": [["req", 0], ["req", 1], ["wait_all", 1], ["wait_all", 0]]})
     S.append({"name": "qlink1_create_and_recv_measure", "wire": "qlink1", "reqs": [M("create", 0, 1), M("recv", 0, 1)],
               "tail": [["req", 0], ["req", 1], ["wait_all", 1], ["wait_all", 0]]})
+    S.append({"name": "reopened_socket_next_application", "kind": "reopen"})
     if tier == "thorough":
         S.append({"name": "three_requests", "reqs": [K("create", 0, 1, [0]), K("recv", 0, 2, [1, 2]), M("create", 1, 1)],
                   "tail": [["req", 0], ["req", 1], ["req", 2], ["wait_all", 2], ["wait_all", 1], ["wait_all", 0]]})
         S.append({"name": "three_pairs", "reqs": [K("recv", 0, 3, [0, 1, 2])], "tail": [["req", 0], ["wait_all", 0]]})
+        S.append({"name": "reopened_socket_same_application", "kind": "reopen", "same_app": True})
         S.append({"name": "two_creates_two_pairs", "reqs": [K("create", 0, 2, [0, 1]), K("create", 0, 2, [2, 3])],
                   "tail": [["req", 0], ["req", 1], ["wait_all", 0], ["wait_all", 1]]})
     return S
@@ -360,7 +443,7 @@ def main(tier, seed):
     specs = scenarios(tier)
     rep.bounds = [f"{len(specs)} scenarios with 1-2 (thorough: up to 3) outstanding requests of 1-2 (3) pairs: same / different sockets, create and "
                   "receive roles mixed, keep and measure types, a keep response aimed at a still-allocated virtual qubit, sequential reuse of one "
-                  "virtual qubit; ALL interleavings of instruction steps and deliveries (receive-role responses may precede their recv_epr)",
+                  "virtual qubit; a socket id re-opened towards another remote socket (purpose id changes) by the next application; ALL interleavings of instruction steps and deliveries (receive-role responses may precede their recv_epr)",
                   "payload (create id, goodness, Bell state) symbolic; sequence numbers concrete tags"]
     rep.outside = ["error responses", "more than three requests", "the timing of a real simulator's retry loop (the harness retries pending "
                    "responses before every scheduling step)"]
